@@ -248,6 +248,9 @@ func (g *Gen) havocAll(st *State) { g.havocAllExcept(st, nil) }
 // preservedKey: does heap component key belong to one of the named types?
 func (g *Gen) preservedKey(key string, names []string) bool {
 	for _, n := range names {
+		if strings.ContainsAny(n, "[") && (key == n || strings.HasPrefix(key, n+".")) {
+			return true // unnamed root type given literally, e.g. []string
+		}
 		star := strings.HasPrefix(n, "*")
 		base := strings.TrimPrefix(n, "*")
 		for _, pre := range []string{g.W.modPath + "/", ""} {
@@ -297,6 +300,7 @@ func (g *Gen) havocAllExcept(st *State, preserve []string) {
 			}
 		}
 	}
+	g.bumpMaps(st)
 	kept := map[string]string{}
 	if len(preserve) > 0 {
 		// materialise the preserved components known so far, so that they keep their terms
@@ -455,11 +459,16 @@ func (g *Gen) applyFuncSpecWith(st *State, fs *FuncSpec, fn *ssa.Function, args 
 		if fn.Signature.Recv() != nil && len(args) > 0 {
 			explicit = args[1:]
 		}
+		xb := map[string]Val{}
 		for i, n := range extra.Params {
 			if i < len(explicit) && n != "_" {
-				binds[n] = explicit[i]
+				xb[n] = explicit[i]
 			}
 		}
+		if fn.Signature.Recv() != nil && len(args) > 0 {
+			xb["recv"] = args[0]
+		}
+		app.xbinds = xb
 		app.extra = extra
 		if len(extra.Ensures) > 0 && !g.discovery {
 			for _, c := range extra.Ensures {
@@ -487,6 +496,7 @@ type contractApp struct {
 	mutGhosts    []string
 	preserves    []string
 	pkg          *ssa.Package
+	xbinds       map[string]Val // names of the call-site clause (the callee's formals are not visible to it)
 	extra        *CalleeSpec // call-site additions on top of a function contract (mixed naming context)
 }
 
@@ -543,7 +553,7 @@ func (g *Gen) applyContract(st *State, a contractApp) Val {
 		}
 	}
 	if a.extra != nil {
-		xctx := &specCtx{g: g, st: pre, old: pre, binds: a.binds, oldIsPre: true}
+		xctx := &specCtx{g: g, st: pre, old: pre, binds: a.xbinds, oldIsPre: true}
 		for _, c := range a.extra.Requires {
 			// checked in the pre-state; reported at the call
 			goal := g.evalGoal(xctx, c.E)
@@ -558,7 +568,11 @@ func (g *Gen) applyContract(st *State, a contractApp) Val {
 	}
 	// ghost updates (evaluated in the pre-state, results visible)
 	if len(a.sets) > 0 {
-		sctx := &specCtx{g: g, st: pre, old: pre, binds: a.binds, results: results, resultNames: xNames, calleeOnly: !a.ownNames, oldIsPre: true}
+		sb := a.binds
+		if a.extra != nil {
+			sb = a.xbinds
+		}
+		sctx := &specCtx{g: g, st: pre, old: pre, binds: sb, results: results, resultNames: xNames, calleeOnly: !a.ownNames, oldIsPre: true}
 		newVals := map[string]Val{}
 		for _, s := range a.sets {
 			newVals[s.Name] = g.evalSpec(sctx, s.E)
@@ -576,7 +590,7 @@ func (g *Gen) applyContract(st *State, a contractApp) Val {
 		g.assume(st, g.evalAssume(ectx, c.E))
 	}
 	if a.extra != nil {
-		xe := &specCtx{g: g, st: st, old: pre, binds: a.binds, results: results, resultNames: xNames, oldIsPre: true}
+		xe := &specCtx{g: g, st: st, old: pre, binds: a.xbinds, results: results, resultNames: xNames, oldIsPre: true}
 		for _, c := range a.extra.Ensures {
 			g.assume(st, g.evalAssume(xe, c.E))
 		}
@@ -743,6 +757,10 @@ func (g *Gen) builtin(st *State, b *ssa.Builtin, c *ssa.CallCommon, rt types.Typ
 			}
 		case ArrV:
 			return IntV{fmt.Sprint(x.N)}
+		case RefV:
+			if _, isMap := x.Typ.Underlying().(*types.Map); isMap {
+				return IntV{g.mapLen(st, x.T)}
+			}
 		}
 		n := g.fresh("len", "Int")
 		g.assume(st, "(<= 0 "+n+")")
@@ -778,6 +796,7 @@ func (g *Gen) builtin(st *State, b *ssa.Builtin, c *ssa.CallCommon, rt types.Typ
 		return IntV{cur}
 	case "delete":
 		g.note("map", "delete on map not modelled")
+		g.bumpMaps(st)
 		return TupleV{}
 	case "clear":
 		if sv, ok := args[0].(SliceV); ok {
